@@ -733,17 +733,102 @@ class Plan(object):
             assigns = [[(o, fa[o.dest][k]) for o in pool if fa[o.dest][k] != "absent"] for k in range(nfiles)]
             for items in assigns:
                 self.rnd.shuffle(items)
-            argv, probes, positional = [], [], []
+            groups, probes, positional = [], [], []
             order = list(pool)
             self.rnd.shuffle(order)
+            switch = None       # a value-less colour switch (--color without value, --no-color, -C) between the options
+            if ca.get("color") == "absent" and self.colour_switches() and self.rnd.random() < 0.4:
+                switch = self.rnd.choice(self.colour_switches())
             for o in order:
+                if switch and o.dest == "color":
+                    probes.append(self.layer_probe(o, fa[o.dest], "v1", "subset:" + switch[0], cv1=switch[2]))
+                    continue
                 form, a = self.argv_for(o, ca[o.dest], self.rnd.randrange(8))
-                (positional if o.kind == "paths" else argv).extend(a)
+                if o.kind == "paths":
+                    positional.extend(a)
+                elif a:
+                    groups.append(a)
                 mode = "junit" if (o.dest in MODES["junit"] and "junit" in fa) else None
                 probes.append(self.layer_probe(o, fa[o.dest], ca[o.dest], "subset:" + form, mode=mode,
                                                mfiles=fa["junit"] if mode else None, mcmd=ca["junit"] if mode else "absent"))
+            if switch:
+                at = self.rnd.randrange(len(groups) + 1)
+                if switch[0] == "bare" and at == len(groups) and positional:
+                    # `--color NOT-A-COLOUR-AND-NOT-AN-EXISTING-PATH` is the documented problem point: keep the line legal
+                    if groups:
+                        at -= 1
+                    else:
+                        switch = [t for t in self.colour_switches() if t[0] != "bare"][0]
+                        for pr in probes:
+                            if pr["dest"] == "color":
+                                pr["vals"] = dict(pr["vals"], cv1=[switch[2]])
+                                pr["form"] = "subset:" + switch[0]
+                groups.insert(at, list(switch[1]))
+            argv = [t for g in groups for t in g]
             self.add({"type": "config", "layout": DEPTHS[v % 2], "files": self.file_entries(layout, assigns, v),
                       "argv": argv + positional, "probes": probes})
+
+    def colour_switches(self):
+        """[(name, argv tokens, projected colour)]: `--color` without value (its const), --no-color, -C"""
+        color = self.by_dest.get("color")
+        if color is None:
+            return []
+        out = [("bare", e[1], e[2]) for e in color.extra if e[0] == "bare-last"]
+        return out + [("const" + e[1][0], e[1], e[2]) for e in color.extra if e[0] == "const"]
+
+    # ---- (C2) a value-less colour switch at every position of a command line: the other options still take effect
+    def colour_switch(self, cases, rounds):
+        switches = self.colour_switches()
+        color = self.by_dest.get("color")
+        if not switches:
+            return
+        pool = [o for o in self.opts if o.dest != "color" and o.dest not in MODES and o.forms
+                and o.kind in ("boolpair", "boolflag", "scalar", "typed", "choice")] + ["userdata"]
+        ud_vals = {"d": [MISSING], "fv1": ["fx1"], "fv2": ["fx2"], "cv1": ["cx1"], "cv2": ["cx2"], "forced": [NONE]}
+        define_forms = [lambda x: ["-D", "x=%s" % x], lambda x: ["--define", "x=%s" % x], lambda x: ["--define=x=%s" % x], lambda x: ["-Dx=%s" % x]]
+        for c in [c for c in cases if c["k"] == "argv"]:
+            n = len(c["argv"])
+            where = "only" if n == 0 else ("first" if c["pos"] == 1 else ("last" if c["pos"] == n + 1 else "middle"))
+            for r in range(rounds):
+                v = self.tick()
+                sw = switches[0] if r % 3 != 2 else switches[1 + (v % (len(switches) - 1))] if len(switches) > 1 else switches[0]
+                if r % 3 == 1 and c["pos"] <= n:
+                    pair = ["userdata", self.rnd.choice(pool[:-1])]       # the switch directly before / around a -D define
+                    if c["argv"][c["pos"] - 1]["opt"] == "o2":
+                        pair.reverse()
+                else:
+                    pair = self.rnd.sample(pool, 2)
+                concrete = {"o1": pair[0], "o2": pair[1]}
+                groups, final = [], {}
+                for item in c["argv"]:
+                    o = concrete[item["opt"]]
+                    if o == "userdata":
+                        val = item["val"]
+                        groups.append(define_forms[(v + len(groups)) % 4](ud_vals["c" + val][0]))
+                    else:
+                        val = item["val"] if item["val"] in o.forms else "v1"
+                        groups.append(list(self.argv_for(o, val, v + len(groups))[1]))
+                    final[item["opt"]] = val
+                groups.insert(c["pos"] - 1, list(sw[1]))
+                # one file assigns both options (the value the command line does not end with) and a colour
+                behave, userdata, probes = [], None, []
+                name = ("behave.ini", "pyproject.toml")[v % 2]
+                for key in ("o1", "o2"):
+                    o, cmd = concrete[key], final.get(key, "absent")
+                    fa = "v2" if cmd == "v1" else "v1"
+                    form = "colour-switch:%s:%s" % (sw[0], where)
+                    if o == "userdata":
+                        userdata = [("x", ud_vals["f" + fa][0])]
+                        probes.append({"row": "layer", "dest": "userdata", "name": "x", "okind": "userdata", "islist": False, "pathy": False,
+                                       "lower": False, "files": [fa], "cmd": cmd, "mfiles": ["absent"], "mcmd": "absent",
+                                       "hasmode": False, "mode": "", "vals": ud_vals, "form": form})
+                    else:
+                        behave.append((o.dest, o.file[fa][fmt_of(name)]))
+                        probes.append(self.layer_probe(o, [fa], cmd, form))
+                behave.append((color.dest, color.file["v1"][fmt_of(name)]))
+                probes.append(self.layer_probe(color, ["v1"], "v1", "%s:%s" % (sw[0], where), cv1=sw[2]))
+                self.add({"type": "config", "layout": DEPTHS[v % 2], "argv": [t for g in groups for t in g], "probes": probes,
+                          "files": [{"where": "cwd", "name": name, "bw": v, "behave": behave, "userdata": userdata}]})
 
     # ---- (D) format/outfiles coupling inside one file, (E) paths named in files at several depths
     def couples(self, cases):
@@ -955,6 +1040,7 @@ def run(chk):
     plan.histories(cases, 0 if chk.quick() else 40)
     plan.coupled(layer_cases)
     plan.subsets(120 if chk.quick() else 4000)
+    plan.colour_switch(cases, 6 if chk.quick() else 30)
     plan.couples(cases)
     plan.paths(cases)
     plan.userdata(layer_cases, 2 if chk.quick() else 8)
@@ -1005,7 +1091,8 @@ def run(chk):
     chk.rule = ("every option of behave's config-file schema x every TLC layer case of its kind (file assignments in {absent,v1,v2}^n, "
                 "n<=%d, x command line in {absent,v1,v2}) x file name/location variants; histories of 2 (thorough: also 3) constructions in one "
                 "process (first reads a file assigning the option; later ones: no file, a file omitting/assigning it, load_config=False, any "
-                "command line); option x forcing mode switch pairs; seeded "
+                "command line); a value-less colour switch (--color, --no-color, -C) at every position of every command line of up to 2 "
+                "occurrences of 2 other options (incl. -D defines), and inside the seeded subsets; option x forcing mode switch pairs; seeded "
                 "option subsets; all -D strings up to %d characters over {a,=,blank,\",'} plus every rendering of the documented forms; "
                 "all path shapes up to %d segments x 7 file directories x 2 cwd depths; format/outfiles counts 0..3; all getter texts up to "
                 "%d characters over {1,0,7,-,+,.,blank,x} plus boolean words, each also under every sequence of 2 (3 where some getter "
